@@ -14,7 +14,7 @@ import (
 var textFrags = []string{"x", "hello", " ", "&amp;", "&lt;", "&#x3c;b&#x3e;", "&#0;", "&#13;", "\r\n", "\r", "\x00", "&", "<", ">", "\"", "'", "&nbsp", "&ampx;", "É", "\xff", "😀",
 	"&#1234567;", "&NewLine;", "a&b", "< b", "<3", "</", "-->", "]]>", "\t", "&#x80;", "&#xD800;", "&notit;", "&not", "&lt", "&#", "&#x", "\xc3", "\xe2\x80", "&amp;lt;", "`", "=", "\n"}
 
-var urlVals = []string{"/search?q=&amp;amp;&amp;x=1", "/p?a=1&ampamp=2", "http://example.com/?a=&amp;lt;b", "http://example.com/", "https://a.b/c?d=e#f", "mailto:a@b.c", "/rel/path", "//host/x", "#frag", "javascript:alert(1)", "JaVaScRiPt:alert(1)", " javascript:alert(1)",
+var urlVals = []string{"/%2fa@^@", "http:/%2fa@^@", "/%2f::^@", "/%2Fa@b^@/c", "/search?q=&amp;amp;&amp;x=1", "/p?a=1&ampamp=2", "http://example.com/?a=&amp;lt;b", "http://example.com/", "https://a.b/c?d=e#f", "mailto:a@b.c", "/rel/path", "//host/x", "#frag", "javascript:alert(1)", "JaVaScRiPt:alert(1)", " javascript:alert(1)",
 	"java\tscript:alert(1)", "data:text/html,x", "data:image/png;base64,iVBORw0KGgo=", "ftp://x/y", "x-app://open", "http://a b/", "\x01javascript:x", "tel:+123", "http://[::1]/",
 	"http:\\\\evil.com", "a/b:c", "%6aavascript:x", "?q=<b>", "http://é.com/é?é#é", "", " ", "http://x/%zz", "http://example.org/ok/1", "https://example.org/no", "HTTP://EXAMPLE.ORG/ok",
 	"http://x/?a=1&b=2;c=3", "http://x/?<x>=1", "http://user:pw@h:80/p", "sftp://h/", "tels:1",
